@@ -225,21 +225,21 @@ def layout_variant(R, arr, variant=None):
     return arr
 
 
-def gen_spec(R, *, n_lf=None, hc=False, small=False, kinds=None, vrl=None, rows=None, with_index=None):
+def gen_spec(R, *, n_lf=None, hc=False, small=False, kinds=None, vrl=None, rows=None, with_index=None, fastpath=False):
     spec = {'sul': {'set_identifier': R.choice(['MAIN-STORAGE-UNIT', 'A', 'X' * 60, 'SET-1']) if hc else
                     R.choice(['MAIN-STORAGE-UNIT', 'A', 'X' * 60, 'some set id', '']),
                     'sul_sequence_number': R.choice([1, 1, 2, 9999, R.randrange(1, 9999)]),
                     'max_record_length': vrl or R.choice([8192, 8192, 16384, 20, 22, 32, 64, 100, 256, 1024,
                                                          R.randrange(20, 600, 2)])},
             'hc': hc, 'lfs': []}
-    n_lf = n_lf or R.choice([1, 1, 1, 2, 3])
+    n_lf = n_lf or (1 if fastpath else R.choice([1, 1, 1, 2, 3]))
     for li in range(n_lf):
         tag = f'LF{li}' if n_lf > 1 else None
         lf = {'fh_id': R.choice(['FILE-HEADER', 'HDR', 'H' * 65, eflr.rstr(R, R.randrange(1, 66))]),
               'fh_sequence_number': R.choice([1, 2, 9999999999, R.randrange(1, 10**10)]),
               'fh_identifier': R.choice(['0', 'X', '9']), 'objects': [], 'noformat': [], 'set_tag': tag}
         objs = lf['objects']
-        nframes = R.choice([1, 1, 2]) if not small else 1
+        nframes = (R.choice([1, 1, 2]) if not small else 1) if not fastpath else 1
         nrows = rows or R.choice([1, 2, 3, 5, 17] if not small else [1, 2, 3])
         plan = []
         n_origin = R.choice([1, 1, 2])
@@ -299,6 +299,11 @@ def gen_spec(R, *, n_lf=None, hc=False, small=False, kinds=None, vrl=None, rows=
                 o['data'] = gen_data(R, dtype, width, nrows if not isinstance(nrows, dict) else nrows[f], idx_like)
                 o['layout'] = R.choice(['plain', 'plain', 'bigendian', 'fortran', 'strided', 'readonly', 'view'])
                 o['cast_dtype'] = None
+                if not hc and not idx_like and R.random() < 0.25:
+                    # a declared cast: values are small non-negative integers, exact in every supported dtype
+                    o['cast_dtype'] = R.choice([d for d in DTYPES if d != dtype])
+                    shape = o['data'].shape
+                    o['data'] = (np.array([R.randrange(0, 100) for _ in range(int(np.prod(shape)))]).reshape(shape)).astype(dtype)
                 o['dataset_name'] = R.choice([None, None, f'ds_{li}_{len(objs)}', f'/grp/ds{li}_{len(objs)}'])
                 frame_channels.setdefault(f, []).append(len(objs))
                 skip = {'dimension', 'element_limit', 'axis', 'representation_code'}
@@ -353,10 +358,32 @@ def gen_spec(R, *, n_lf=None, hc=False, small=False, kinds=None, vrl=None, rows=
                 payload = ''.join(chr(R.randrange(32, 127)) for _ in range(min(n, 300)))
             lf['noformat'].append((R.choice(nfs), payload))
         spec['lfs'].append(lf)
+    data_kinds = ['inline', 'inline', 'dict'] + (['struct', 'struct'] if n_lf == 1 else [])
+    if fastpath:
+        # the structured array IS the frame: same field names, same order, nothing else -> no-copy path of
+        # NumpyDataWrapper; same-size casts on 2-D channels, scalar casts, or none
+        SAME = {'int32': ['uint32', 'float32'], 'uint32': ['int32', 'float32'], 'float32': ['int32', 'uint32'],
+                'int16': ['uint16'], 'uint16': ['int16'], 'int8': ['uint8'], 'uint8': ['int8']}
+        chans = [o for o in spec['lfs'][0]['objects'] if o['kind'] == 'channel']
+        mode = R.choice(['none', 'same-size-2d', 'same-size-2d', 'any'])
+        for k, o in enumerate(chans):
+            o['dataset_name'] = None
+            o['layout'] = R.choice(['plain', 'bigendian'])
+            o['cast_dtype'] = None
+            if k > 0 and mode == 'same-size-2d' and o['dtype'] in SAME:
+                o['width'] = o['width'] or R.choice([2, 4])
+            shape = (o['data'].shape[0],) + ((o['width'],) if o['width'] else ())
+            o['data'] = np.array([R.randrange(0, 100) for _ in range(int(np.prod(shape)))]).reshape(shape).astype(o['dtype'])
+            if k > 0 and mode == 'same-size-2d' and o['dtype'] in SAME and o['width']:
+                o['cast_dtype'] = R.choice(SAME[o['dtype']])
+            elif k > 0 and mode == 'any' and R.random() < 0.5:
+                o['cast_dtype'] = R.choice([d for d in DTYPES if d != o['dtype']])
+        data_kinds = ['struct']
     spec['write'] = {'input_chunk_size': R.choice([None, None, 1, 2, 3, 1000]),
                      'output_chunk_size': R.choice([2**20, spec['sul']['max_record_length'],
                                                     spec['sul']['max_record_length'] + 10, 2**16]),
-                     'from_idx': 0, 'to_idx': None, 'data_kind': R.choice(['inline', 'inline', 'dict'])}
+                     'from_idx': 0, 'to_idx': None, 'data_kind': R.choice(data_kinds),
+                     'source_opts': {'perm_seed': R.randrange(1000), 'extra': R.choice([0, 0, 2]), 'exact': fastpath}}
     return spec
 
 
@@ -421,6 +448,8 @@ def build(spec):
             L.add_no_format_frame_data(hs[nfi], payload)
     kind = spec['write']['data_kind']
     if kind in ('struct', 'hdf5'):
+        if kind == 'struct' and len({a.shape[0] for a in b.data.values()}) > 1:
+            raise ValueError('generator: structured source needs one row count')
         b.data = make_source(kind, b.data, spec['write'].get('source_opts', {}))
     return b
 
@@ -431,8 +460,11 @@ def make_source(kind, datasets, opts):
     import random
     names = list(datasets)
     R = random.Random(opts.get('perm_seed', 0))
-    R.shuffle(names)
     extra = opts.get('extra', 0)
+    if opts.get('exact'):
+        extra = 0          # fields exactly as handed in (channel order of the single frame)
+    else:
+        R.shuffle(names)
     n = next(iter(datasets.values())).shape[0] if datasets else 0
     if kind == 'struct':
         fields = []
